@@ -705,6 +705,13 @@ var osFuncs = map[string]string{
 	"path/filepath.Glob": "Glob",
 }
 
+var methodValueHelpers = map[string]string{
+	"(*sync.Mutex).Lock": "MVLock", "(*sync.Mutex).Unlock": "MVUnlock",
+	"(*sync.RWMutex).Lock": "MVRWLock", "(*sync.RWMutex).Unlock": "MVRWUnlock",
+	"(*sync.RWMutex).RLock": "MVRLock", "(*sync.RWMutex).RUnlock": "MVRUnlock",
+	"(*sync.WaitGroup).Done": "MVWGDone", "(*sync.WaitGroup).Wait": "MVWGWait",
+}
+
 var unsupportedOS = map[string]bool{
 	"os.WriteFile": true, "os.ReadFile": true, "os.RemoveAll": true, "os.Truncate": true,
 	"os.ReadDir": true, "os.Link": true, "os.Symlink": true, "os.CreateTemp": true, "os.MkdirTemp": true,
@@ -718,6 +725,22 @@ func (in *instr) rewriteExprs() {
 				c.Replace(r)
 			}
 		case *ast.SelectorExpr:
+			// a method value of a synchronisation primitive (unlock := mu.Unlock)
+			if si, ok := in.pkg.TypesInfo.Selections[x]; ok && si.Kind() == types.MethodVal {
+				if call, isCall := c.Parent().(*ast.CallExpr); !isCall || call.Fun != x {
+					if fn, ok := si.Obj().(*types.Func); ok {
+						if helper, ok := methodValueHelpers[fn.FullName()]; ok {
+							in.count("R2.methodvalue")
+							c.Replace(simcall(helper, in.addrOfRecv(x), in.site(x.Pos())))
+							return true
+						}
+						if strings.HasPrefix(fn.FullName(), "(*sync.") {
+							in.warn(x.Pos(), "method value %s is not a scheduling point", fn.FullName())
+							in.counts["warn.sync-unwrapped"]++
+						}
+					}
+				}
+			}
 			// os.File as a type, os.Stdout / os.Stderr as values
 			id, ok := x.X.(*ast.Ident)
 			if !ok {
